@@ -39,7 +39,12 @@
        part of the matched state, breakOut at statement level through call / if-then(-else) ends exactly the named scope.
        switch - case - default is covered too (C02_switch_body_vm, C02_switch_body_ref and the constructors ZSwitchVal, ZSwitchNone, ZSwitchRun): fall-through
        labels, first match wins, default; the case values are pure expressions.
-       NOT covered by the simulation: exitWith inside an operand or in a block chosen by switch, a throw or breakOut inside an operand or out of a loop body, waitUntil, nil operands, a while loop
+       LEAVING A LOOP: the body of forEach / count / apply / select / findIf, the body of for, the condition and the body of while may be
+       left by a throw that a try-catch outside the loop takes and by breakOut to a scope name outside the loop (relations zloopleave /
+       zileave / zfleave / zwleave, constructors ZTLoop / ZKLoop: C02_vm_runs_loop_throw, C02_vm_runs_loop_breakout, C02_ref_runs_loop_exit
+       and the per-loop theorems C02_vm_runs_loops_exit / _for_exit / _while_exit), and by breakOut to the name the scope of the round
+       itself carries (ZIterBreak, ZForBreak, ZWhileBreakCond, ZWhileBreakBody, inside C02_vm_runs_loops / _for / _while).
+       NOT covered by the simulation: exitWith inside an operand or in a block chosen by switch, a throw or breakOut inside an operand or out of a case block, a throw past the last handler, breakOut to a name no scope carries, waitUntil, nil operands, a while loop
        with an empty body or a non-boolean condition - for these the
        per-construct theorems below and the program-level differential are the evidence;
      - the compiler emits the post-order of the source (code blocks, binary operators, arrays);
@@ -678,7 +683,8 @@ Qed.
    the machine reaches the state in which ft runs its handler from position 0 with _exception bound, every frame above it is gone,
    the reference state Matches, and what lies on the operand stack above ft's base are nils only (throw_any pops frames without
    clearing their parts of the stack; at statement level these hold nothing else, which is what `under` / Fresh now say).
-   Not covered: a throw inside an operand, inside a loop body, or past the last handler. *)
+   A loop standing as a statement one of whose rounds is left by a throw is such a statement too (ZTLoop, section LEAVING A LOOP below).
+   Not covered: a throw inside an operand, out of a case block, or past the last handler. *)
 Theorem C02_ref_runs_throw : forall s reg b x s', zthrow s reg b x s' ->
   exists f0, forall f, f0 <= f -> eval_block f s b reg = (OThrow x, s').
 Proof. exact (proj1 (proj2 (proj2 (proj2 (proj2 (proj2 (proj2 (proj2 ref_runs_z)))))))). Qed.
@@ -769,10 +775,11 @@ Qed.
    Machine side: where the innermost scope named t is k scopes up (judged on the reference state at the breakOut), the machine pops
    k+1 frames, each one's part of the operand stack with it, and continues in the frame below with the value on what lay below the
    named frame - an early exit leaves exactly the targeted scope.  While proving this the frame of a loop's next round turned out
-   to keep its name (repaired, see DESIGN.md).  Not covered: breakOut out of a loop body, to a name no scope carries, to "". *)
+   to keep its name (repaired, see DESIGN.md).  A loop standing as a statement one of whose rounds is left by breakOut to a name outside
+   the loop is such a statement too (ZKLoop, section LEAVING A LOOP below).  Not covered: breakOut to a name no scope carries, to "". *)
 Theorem C02_ref_runs_breakout : forall s reg b t v s', zbreak s reg b t v s' ->
   exists f0, forall f, f0 <= f -> eval_block f s b reg = (OBreak t v, s').
-Proof. exact (proj2 (proj2 (proj2 (proj2 (proj2 (proj2 (proj2 (proj2 ref_runs_z)))))))). Qed.
+Proof. exact (proj1 (proj2 (proj2 (proj2 (proj2 (proj2 (proj2 (proj2 (proj2 ref_runs_z))))))))). Qed.
 Print Assumptions C02_ref_runs_breakout.
 Theorem C02_vm_runs_breakout : forall s reg b t v s', zbreak s reg b t v s' ->
   forall r c f restf below pre k top fn fc rest jn below_n,
@@ -784,7 +791,7 @@ Theorem C02_vm_runs_breakout : forall s reg b t v s', zbreak s reg b t v s' ->
     below = jn ++ below_n -> length below_n = f_base fn ->
     exists r' c' fc' rest', Steps r r' /\ Mach (drop_scopes (S k) s') r' c' fc' rest' /\ c_values c' = cv v :: below_n /\
       kept fc fc' /\ Forall2 kept rest rest'.
-Proof. exact (proj2 (proj2 (proj2 (proj2 (proj2 (proj2 (proj2 (proj2 vm_runs_z)))))))). Qed.
+Proof. exact (proj1 (proj2 (proj2 (proj2 (proj2 (proj2 (proj2 (proj2 (proj2 vm_runs_z))))))))). Qed.
 Print Assumptions C02_vm_runs_breakout.
 (* r = call { scopeName "out"; diag_log "a"; if (true) then { call { diag_log "b"; "v" breakOut "out" }; diag_log "dead" }; diag_log "dead"; 1 }; r
    yields "v", logs a then b: two scopes that do not carry the name are passed, the named one ends with the value *)
@@ -820,6 +827,314 @@ Proof.
     - eapply ZPLast. eapply ZSExprV. eapply ZPure. eapply PVarG; reflexivity. }
   reflexivity.
 Qed.
+
+
+(* ---- LEAVING A LOOP by a throw or by breakOut (relations zloopleave / zileave / zfleave / zwleave of VM/SimExit.v, constructors ZTLoop
+   of zthrow and ZKLoop of zbreak).  The body of forEach / count / apply / select / findIf, the body of for, the condition and the body
+   of while may be left by a throw that a try-catch OUTSIDE the loop takes, and by breakOut to a scope name OUTSIDE the loop: after
+   rounds that run normally, one round is left that way (zthrow / zbreak of the round's block; for breakOut the scope of the round
+   does not carry the name).  A loop standing as a statement and left that way makes its block a block left by a throw / by breakOut
+   (ZTLoop, ZKLoop) - so C02_vm_runs_throw / C02_vm_runs_breakout / C02_ref_runs_throw / C02_ref_runs_breakout above now speak about
+   such blocks too, and try {.. loop ..} catch {..}, call {.. scopeName "o"; loop ..} are expressions of the relation zev, nestable
+   like every other.  `abr` = AThrow x | ABreak t v is the kind of exit, `oa` the outcome of the reference semantics that goes with it.
+   Machine side, in the shape of C02_vm_runs_throw / C02_vm_runs_breakout: from the state in which the running frame f stands in
+   front of the loop's operands, the machine evaluates the operands, pushes the loop frame, goes round (each pass that goes round
+   also executes the first instruction of the next round), and reaches the state in which the handler's frame runs the handler from
+   position 0 with _exception bound / the frame below the named one goes on with the value; the loop frame and everything above
+   the handler's / below the named frame's base on the operand stack are gone (only the nils of abandoned scopes remain above the
+   handler's base), and the reference state - the scopes of the round, of the loop and of everything in between closed - Matches. *)
+Theorem C02_ref_runs_loop_exit : forall s e a s', zloopleave s e a s' ->
+  exists f0, forall f, f0 <= f -> eval f s e = (oa a, s').
+Proof. exact (proj1 (proj2 (proj2 (proj2 (proj2 (proj2 (proj2 (proj2 (proj2 (proj2 ref_runs_z)))))))))). Qed.
+Print Assumptions C02_ref_runs_loop_exit.
+Theorem C02_vm_runs_loop_throw : forall s e x s', zloopleave s e (AThrow x) s' ->
+  forall reg r c f restf below pre post inner ft rest h jn below_t,
+    AtM s reg r c f restf below -> Fresh c below ->
+    f_code f = pre ++ compile_expr e ++ post -> f_pos f = length pre ->
+    f :: restf = inner ++ ft :: rest -> Forall (fun m => f_err m = None) inner -> f_err ft = Some (ECatch h) ->
+    below = jn ++ below_t -> under jn -> length below_t = f_base ft ->
+    exists r' c' rest' ft0, Steps r r' /\ Forall2 kept rest rest' /\ moved ft ft0 /\
+      Good r' c' /\ quirks r' = ([], 0) /\ c_frames c' = handler_frame ft0 h (cv x) :: rest' /\
+      Match (set_top_vars (drop_scopes (length inner) s') [("_exception", x)]) r' (handler_frame ft0 h (cv x) :: rest') /\
+      exists jn', c_values c' = VNil :: jn' ++ below_t /\ under jn'.
+Proof.
+  exact (fun s e x s' H reg r c f restf below pre post inner ft rest h jn below_t A FR EC EP =>
+           proj1 (proj2 (proj2 (proj2 (proj2 (proj2 (proj2 (proj2 (proj2 (proj2 vm_runs_z))))))))) s e (AThrow x) s' H
+             reg r c f restf below pre post A FR EC EP inner ft rest h jn below_t).
+Qed.
+Print Assumptions C02_vm_runs_loop_throw.
+Theorem C02_vm_runs_loop_breakout : forall s e t v s', zloopleave s e (ABreak t v) s' ->
+  forall reg r c f restf below pre post k top fn fc rest jn below_n,
+    AtM s reg r c f restf below -> Fresh c below ->
+    f_code f = pre ++ compile_expr e ++ post -> f_pos f = length pre ->
+    find_name t (st_scopes s') 0 = Some k ->
+    f :: restf = top ++ fn :: fc :: rest -> length top = k ->
+    Forall (fun m => f_base fn <= f_base m) top -> f_base fc <= f_base fn ->
+    below = jn ++ below_n -> length below_n = f_base fn ->
+    exists r' c' fc' rest', Steps r r' /\ Mach (drop_scopes (S k) s') r' c' fc' rest' /\ c_values c' = cv v :: below_n /\
+      kept fc fc' /\ Forall2 kept rest rest'.
+Proof.
+  exact (fun s e t v s' H reg r c f restf below pre post k top fn fc rest jn below_n A FR EC EP =>
+           proj1 (proj2 (proj2 (proj2 (proj2 (proj2 (proj2 (proj2 (proj2 (proj2 vm_runs_z))))))))) s e (ABreak t v) s' H
+             reg r c f restf below pre post A FR EC EP k top fn fc rest jn below_n).
+Qed.
+Print Assumptions C02_vm_runs_loop_breakout.
+
+(* the same at the level of the loop frame, per kind of loop.  LeavesL a s' r f restf below (VM/SimExit.v) is the conclusion of the two
+   theorems above read for a LOOP frame f at the start of a round: the handler's frame / the named frame lies in restf, s' has the scope
+   of the loop closed as well, and the run is not empty (r' <> r).  C02_loop_frame_throw / C02_loop_frame_breakout spell it out. *)
+Theorem C02_loop_frame_throw : forall x s' r f restf below, LeavesL (AThrow x) s' r f restf below ->
+  forall inner ft rest h jn below_t,
+    restf = inner ++ ft :: rest -> f_err f = None -> Forall (fun m => f_err m = None) inner -> f_err ft = Some (ECatch h) ->
+    below = jn ++ below_t -> under jn -> length below_t = f_base ft ->
+    exists r' c' rest' ft0, Steps r r' /\ r' <> r /\ Forall2 kept rest rest' /\ moved ft ft0 /\
+      Good r' c' /\ quirks r' = ([], 0) /\ c_frames c' = handler_frame ft0 h (cv x) :: rest' /\
+      Match (set_top_vars (drop_scopes (length inner) s') [("_exception", x)]) r' (handler_frame ft0 h (cv x) :: rest') /\
+      exists jn', c_values c' = VNil :: jn' ++ below_t /\ under jn'.
+Proof. exact (fun x s' r f restf below H => H). Qed.
+Print Assumptions C02_loop_frame_throw.
+Theorem C02_loop_frame_breakout : forall t v s' r f restf below, LeavesL (ABreak t v) s' r f restf below ->
+  forall k top fn fc rest jn below_n,
+    find_name t (st_scopes s') 0 = Some k ->
+    restf = top ++ fn :: fc :: rest -> length top = k ->
+    f_base fn <= f_base f -> Forall (fun m => f_base fn <= f_base m) top -> f_base fc <= f_base fn ->
+    below = jn ++ below_n -> length below_n = f_base fn ->
+    exists r' c' fc' rest', Steps r r' /\ r' <> r /\ Mach (drop_scopes (S k) s') r' c' fc' rest' /\ c_values c' = cv v :: below_n /\
+      kept fc fc' /\ Forall2 kept rest rest'.
+Proof. exact (fun t v s' r f restf below H => H). Qed.
+Print Assumptions C02_loop_frame_breakout.
+
+Theorem C02_ref_runs_loops_exit : forall k s arr i body acc a s', zileave k s arr i body acc a s' ->
+  exists f0, forall f, f0 <= f -> forall kk, length arr < kk ->
+    iterate_f f kk s arr i body (kwith k) acc (kstep k) = (oa a, s').
+Proof. exact (proj1 (proj2 (proj2 (proj2 (proj2 (proj2 (proj2 (proj2 (proj2 (proj2 (proj2 ref_runs_z))))))))))). Qed.
+Print Assumptions C02_ref_runs_loops_exit.
+Theorem C02_vm_runs_loops_exit : forall k s x rest0 i body acc a s', zileave k s (x :: rest0) i body acc a s' ->
+  forall r c f fc frest below allarr b,
+    AtM (enter s (kvars k i x)) (match i with O => RNil | _ => RNone end) r c f (fc :: frest) below -> Fresh c below ->
+    f_code f = compile_block body -> f_pos f = 0 -> f_exit f = Some b -> kb k allarr i acc b -> f_die f = false ->
+    skipn i allarr = x :: rest0 -> leaf_first body -> f_ns f = f_ns fc -> f_base fc <= length below ->
+    LeavesL a s' r f (fc :: frest) below.
+Proof.
+  exact (fun k s x rest0 i body acc a s' H =>
+           proj1 (proj2 (proj2 (proj2 (proj2 (proj2 (proj2 (proj2 (proj2 (proj2 (proj2 vm_runs_z)))))))))) k s (x :: rest0) i body acc a s' H).
+Qed.
+Print Assumptions C02_vm_runs_loops_exit.
+Theorem C02_ref_runs_for_exit : forall var to st s x first body a s', zfleave var to st s x first body a s' ->
+  exists f0 k0, forall f, f0 <= f -> forall k, k0 <= k -> for_loop_f f var to st body k s x first = (oa a, s').
+Proof. exact (proj1 (proj2 (proj2 (proj2 (proj2 (proj2 (proj2 (proj2 (proj2 (proj2 (proj2 (proj2 ref_runs_z)))))))))))). Qed.
+Print Assumptions C02_ref_runs_for_exit.
+Theorem C02_vm_runs_for_exit : forall var to st s x first body a s', zfleave var to st s x first body a s' ->
+  forall r c f fc frest below,
+    AtM (enter s [(lower var, RNum x)]) (if first then RNil else RNone) r c f (fc :: frest) below -> Fresh c below ->
+    f_code f = compile_block body -> f_pos f = 0 -> f_exit f = Some (BFor var to st) -> f_die f = false ->
+    leaf_first body -> f_ns f = f_ns fc -> f_base fc <= length below ->
+    LeavesL a s' r f (fc :: frest) below.
+Proof. exact (proj1 (proj2 (proj2 (proj2 (proj2 (proj2 (proj2 (proj2 (proj2 (proj2 (proj2 (proj2 vm_runs_z)))))))))))). Qed.
+Print Assumptions C02_vm_runs_for_exit.
+Theorem C02_ref_runs_while_exit : forall cond body s first a s', zwleave cond body s first a s' ->
+  exists f0 k0, forall f, f0 <= f -> forall k, k0 <= k -> forall n, first = Nat.eqb n 0 ->
+    while_loop_f f cond body k s n = (oa a, s').
+Proof. exact (proj2 (proj2 (proj2 (proj2 (proj2 (proj2 (proj2 (proj2 (proj2 (proj2 (proj2 (proj2 ref_runs_z)))))))))))). Qed.
+Print Assumptions C02_ref_runs_while_exit.
+Theorem C02_vm_runs_while_exit : forall cond body s first a s', zwleave cond body s first a s' ->
+  forall r c f fc frest below loops,
+    AtM (enter s []) (if first then RNil else RNone) r c f (fc :: frest) below -> Fresh c below ->
+    f_code f = compile_block cond -> f_pos f = 0 ->
+    f_exit f = Some (BWhile loops WCond (compile_block cond) (compile_block body)) -> f_die f = false ->
+    leaf_first cond -> leaf_first body -> f_ns f = f_ns fc -> f_base fc <= length below ->
+    LeavesL a s' r f (fc :: frest) below.
+Proof. exact (proj2 (proj2 (proj2 (proj2 (proj2 (proj2 (proj2 (proj2 (proj2 (proj2 (proj2 (proj2 vm_runs_z)))))))))))). Qed.
+Print Assumptions C02_vm_runs_while_exit.
+
+(* derivations.  (1) try { { diag_log _x; if (_x > 1) then { throw _x } } forEach [1, 2, 3]; diag_log "dead" } catch { _exception }
+   yields 2 and logs 1 then 2: the first round runs normally, the second is left by the throw, the third does not run, nothing behind
+   the loop runs, the handler sees the thrown value *)
+Definition ex_loop_body_throw : list stmt :=
+  [SExpr (EUnary "diag_log" (EVar "_x"));
+   SExpr (EBinary "then" (EUnary "if" (EBinary ">" (EVar "_x") (ENum 1))) (ECode [SExpr (EUnary "throw" (EVar "_x"))]))].
+Definition ex_loop_throw : expr :=
+  EBinary "catch"
+    (EUnary "try" (ECode [SExpr (EBinary "forEach" (ECode ex_loop_body_throw) (EArr [ENum 1; ENum 2; ENum 3]));
+                          SExpr (EUnary "diag_log" (EStr "dead"))]))
+    (ECode [SExpr (EVar "_exception")]).
+Ltac foreach_rounds_throw :=
+  eapply ZILCons;
+  [ eapply ZBCons;
+    [ eapply ZSExprV; eapply ZDiag; [reflexivity|intros ? ?; discriminate|eapply ZPure; eapply PVarL; reflexivity|split; discriminate|reflexivity]
+    | eapply ZBLast; eapply ZSExprV; eapply ZThenSkip; [reflexivity| |eapply ZCode];
+      eapply ZIf; [reflexivity|intros ? ?; discriminate|]; eapply ZPure; eapply PBin; [eapply PVarL; reflexivity|eapply PNum|reflexivity] ]
+  | reflexivity
+  | exact I
+  | eapply ZILThrow; eapply ZTCons;
+    [ eapply ZSExprV; eapply ZDiag; [reflexivity|intros ? ?; discriminate|eapply ZPure; eapply PVarL; reflexivity|split; discriminate|reflexivity]
+    | eapply ZTThen; [reflexivity| |eapply ZCode|];
+      [ eapply ZIf; [reflexivity|intros ? ?; discriminate|]; eapply ZPure; eapply PBin; [eapply PVarL; reflexivity|eapply PNum|reflexivity]
+      | eapply ZTThrow; [reflexivity|intros ? ?; discriminate|eapply ZPure; eapply PVarL; reflexivity|split; discriminate] ] ] ].
+Example foreach_rounds_throw_inhabited : exists s',
+  zileave KForEach (enter init_state []) [RNum 1; RNum 2; RNum 3] 0 ex_loop_body_throw RNil (AThrow (RNum 2)) s' /\ st_trace s' = ["2"; "1"].
+Proof. eexists. split; [foreach_rounds_throw|reflexivity]. Qed.
+Example loop_throw_inhabited : exists v s', zev init_state ex_loop_throw v s' /\ v = RNum 2 /\ st_trace s' = ["2"; "1"].
+Proof.
+  eexists _, _. split.
+  { eapply ZCatchThrow; [reflexivity|eapply ZTryVal; [reflexivity|intros ? ?; discriminate|eapply ZCode]|eapply ZCode| |].
+    - eapply ZTLoop. eapply (ZLLoopCA _ _ _ _ _ _ _ KForEach); [reflexivity|reflexivity| |eapply ZCode| |].
+      + eexists _, _. split; [reflexivity|]. right. eexists. reflexivity.
+      + eapply ZPure. eapply PArr. eapply PCons; [eapply PNum|]. eapply PCons; [eapply PNum|]. eapply PCons; [eapply PNum|eapply PNil].
+      + foreach_rounds_throw.
+    - eapply ZBLast. eapply ZSExprV. eapply ZPure. eapply PVarL; reflexivity. }
+  split; reflexivity.
+Qed.
+
+(* (2) r = call { scopeName "o"; { if (_x > 1) then { 7 breakOut "o" } } forEach [1, 2, 3]; diag_log "dead"; 1 }; r   yields 7: the
+   second round breaks out of the if-scope, the scope of the round, the loop and the scope named o *)
+Definition ex_loop_body_break : list stmt :=
+  [SExpr (EBinary "then" (EUnary "if" (EBinary ">" (EVar "_x") (ENum 1))) (ECode [SExpr (EBinary "breakOut" (ENum 7) (EStr "o"))]))].
+Definition ex_loop_break_prog : list stmt :=
+  [SAssign "r" (EUnary "call" (ECode
+     [SExpr (EUnary "scopeName" (EStr "o"));
+      SExpr (EBinary "forEach" (ECode ex_loop_body_break) (EArr [ENum 1; ENum 2; ENum 3]));
+      SExpr (EUnary "diag_log" (EStr "dead")); SExpr (ENum 1)]));
+   SExpr (EVar "r")].
+Example loop_breakout_inhabited : exists s', zprog init_state RNone ex_loop_break_prog (RNum 7) s' /\ st_trace s' = [].
+Proof.
+  eexists. split.
+  { eapply ZPCons.
+    - eapply ZSAssign.
+      { discriminate. } { reflexivity. }
+      { eapply ZCallBreak; [reflexivity|intros ? ?; discriminate|eapply ZCode| |].
+        - eapply ZKCons.
+          + eapply ZSExprV. eapply ZScopeName; [reflexivity|intros ? ?; discriminate|eapply ZPure; eapply PStr|reflexivity|reflexivity].
+          + eapply ZKLoop.
+            { eapply (ZLLoopCA _ _ _ _ _ _ _ KForEach); [reflexivity|reflexivity| |eapply ZCode| |].
+              * eexists _, _. split; [reflexivity|]. right. eexists. reflexivity.
+              * eapply ZPure. eapply PArr. eapply PCons; [eapply PNum|]. eapply PCons; [eapply PNum|]. eapply PCons; [eapply PNum|eapply PNil].
+              * eapply ZILCons.
+                -- eapply ZBLast. eapply ZSExprV. eapply ZThenSkip; [reflexivity| |eapply ZCode].
+                   eapply ZIf; [reflexivity|intros ? ?; discriminate|]. eapply ZPure. eapply PBin; [eapply PVarL; reflexivity|eapply PNum|reflexivity].
+                -- reflexivity.
+                -- exact I.
+                -- eapply ZILBreak.
+                   { eapply ZKThen; [reflexivity| |eapply ZCode| |].
+                     - eapply ZIf; [reflexivity|intros ? ?; discriminate|]. eapply ZPure. eapply PBin; [eapply PVarL; reflexivity|eapply PNum|reflexivity].
+                     - eapply ZKBreakV; [reflexivity|eapply ZPure; eapply PNum|split; discriminate|eapply ZPure; eapply PStr|discriminate].
+                     - discriminate. }
+                   { discriminate. } }
+        - reflexivity. }
+      { split; discriminate. }
+    - eapply ZPLast. eapply ZSExprV. eapply ZPure. eapply PVarG; reflexivity. }
+  reflexivity.
+Qed.
+
+(* (3) for "_i" from 1 to 5 do { if (_i > 1) then { throw _i } }: the second round is left by the throw *)
+Definition ex_for_body_throw : list stmt :=
+  [SExpr (EBinary "then" (EUnary "if" (EBinary ">" (EVar "_i") (ENum 1))) (ECode [SExpr (EUnary "throw" (EVar "_i"))]))].
+Ltac for_rounds_throw :=
+  eapply ZFLRound;
+  [ eapply ZBLast; eapply ZSExprV; eapply ZThenSkip; [reflexivity| |eapply ZCode];
+    eapply ZIf; [reflexivity|intros ? ?; discriminate|]; eapply ZPure; eapply PBin; [eapply PVarL; reflexivity|eapply PNum|reflexivity]
+  | reflexivity | reflexivity | reflexivity
+  | eapply ZFLThrow; eapply ZTThen; [reflexivity| |eapply ZCode|];
+    [ eapply ZIf; [reflexivity|intros ? ?; discriminate|]; eapply ZPure; eapply PBin; [eapply PVarL; reflexivity|eapply PNum|reflexivity]
+    | eapply ZTThrow; [reflexivity|intros ? ?; discriminate|eapply ZPure; eapply PVarL; reflexivity|split; discriminate] ] ].
+Example for_rounds_throw_inhabited : exists s', zfleave "_i" 5 1 (enter init_state []) 1 true ex_for_body_throw (AThrow (RNum 2)) s'.
+Proof. eexists. for_rounds_throw. Qed.
+Definition ex_for_throw : expr :=
+  EBinary "catch"
+    (EUnary "try" (ECode [SExpr (EBinary "do" (EBinary "to" (EBinary "from" (EUnary "for" (EStr "_i")) (ENum 1)) (ENum 5)) (ECode ex_for_body_throw))]))
+    (ECode [SExpr (EBinary "+" (EVar "_exception") (ENum 40))]).
+Example for_throw_inhabited : exists v s', zev init_state ex_for_throw v s' /\ v = RNum 42.
+Proof.
+  eexists _, _. split.
+  { eapply ZCatchThrow; [reflexivity|eapply ZTryVal; [reflexivity|intros ? ?; discriminate|eapply ZCode]|eapply ZCode| |].
+    - eapply ZTLoop. eapply ZLFor; [reflexivity| |eapply ZCode| | |].
+      + eapply ZForSet; [| |eapply ZPure; eapply PNum].
+        2: { eapply ZForSet; [| |eapply ZPure; eapply PNum].
+             2: { eapply ZForVar; [reflexivity|intros ? ?; discriminate|eapply ZPure; eapply PStr]. }
+             reflexivity. }
+        reflexivity.
+      + reflexivity.
+      + eexists _, _. split; [reflexivity|]. right. eexists. reflexivity.
+      + for_rounds_throw.
+    - eapply ZBLast. eapply ZSExprV. eapply ZPure. eapply PBin; [eapply PVarL; reflexivity|eapply PNum|reflexivity]. }
+  reflexivity.
+Qed.
+
+(* (4) i = 0; while { i < 5 } do { i = i + 1; if (i > 1) then { i breakOut "o" } }: the body of the second round is left by breakOut *)
+Definition ex_while_cond : list stmt := [SExpr (EBinary "<" (EVar "i") (ENum 5))].
+Definition ex_while_body_break : list stmt :=
+  [SAssign "i" (EBinary "+" (EVar "i") (ENum 1));
+   SExpr (EBinary "then" (EUnary "if" (EBinary ">" (EVar "i") (ENum 1))) (ECode [SExpr (EBinary "breakOut" (EVar "i") (EStr "o"))]))].
+Example while_rounds_break_inhabited : exists s0 s', glob_of s0 "i" = Some (RNum 0) /\
+  zwleave ex_while_cond ex_while_body_break s0 true (ABreak "o" (RNum 2)) s' /\ glob_of s' "i" = Some (RNum 2).
+Proof.
+  exists (rns_set init_state default_ns "i" (RNum 0)). eexists. split; [reflexivity|]. split.
+  { eapply ZWLRound.
+    - eapply ZBLast. eapply ZSExprV. eapply ZPure. eapply PBin; [eapply PVarG; reflexivity|eapply PNum|reflexivity].
+    - eapply ZBCons.
+      + eapply ZSAssign; [discriminate|reflexivity|eapply ZPure; eapply PBin; [eapply PVarG; reflexivity|eapply PNum|reflexivity]|split; discriminate].
+      + eapply ZBLast. eapply ZSExprV. eapply ZThenSkip; [reflexivity| |eapply ZCode].
+        eapply ZIf; [reflexivity|intros ? ?; discriminate|]. eapply ZPure. eapply PBin; [eapply PVarG; reflexivity|eapply PNum|reflexivity].
+    - eapply ZWLBreakBody.
+      + eapply ZBLast. eapply ZSExprV. eapply ZPure. eapply PBin; [eapply PVarG; reflexivity|eapply PNum|reflexivity].
+      + eapply ZKCons.
+        * eapply ZSAssign; [discriminate|reflexivity|eapply ZPure; eapply PBin; [eapply PVarG; reflexivity|eapply PNum|reflexivity]|split; discriminate].
+        * eapply ZKThen; [reflexivity| |eapply ZCode| |].
+          -- eapply ZIf; [reflexivity|intros ? ?; discriminate|]. eapply ZPure. eapply PBin; [eapply PVarG; reflexivity|eapply PNum|reflexivity].
+          -- eapply ZKBreakV; [reflexivity|eapply ZPure; eapply PVarG; reflexivity|split; discriminate|eapply ZPure; eapply PStr|discriminate].
+          -- discriminate.
+      + discriminate. }
+  reflexivity.
+Qed.
+
+(* ... and the first two programs evaluated inside Coq on both sides: the reference semantics and the VM model (the loaded program run
+   by execute_do to the end) log the same markers and yield the same value *)
+Definition ex_loop_throw_prog : list stmt := [SExpr ex_loop_throw].
+Example loop_exit_ref_and_vm_agree :
+  run_ref 200 ex_loop_throw_prog = "OK:M<1>,M<2>,V<2>" /\
+  run_final (load (create_rt [] 0 0 (100 * 100) 150) (compile_block ex_loop_throw_prog)) = "-1:0:3:60019,M<1>,3:60019,M<2>,3:60095,M<VALUE 2>," /\
+  run_ref 200 ex_loop_break_prog = "OK:V<7>" /\
+  run_final (load (create_rt [] 0 0 (100 * 100) 150) (compile_block ex_loop_break_prog)) = "-1:0:3:60095,M<VALUE 7>,".
+Proof. repeat split; vm_compute; reflexivity. Qed.
+
+(* (5) breakOut to the name the scope of the round itself carries:  { scopeName "l"; if (_x > 1) then { _x breakOut "l" }; 0 } forEach [1, 2, 3]
+   ends the whole loop in the second round with the value 2 (constructor ZIterBreak of ziter, covered by C02_vm_runs_loops / C02_ref_runs_loops;
+   ZForBreak, ZWhileBreakCond, ZWhileBreakBody are the same for for and while) *)
+Definition ex_loop_own_name : expr :=
+  EBinary "forEach"
+    (ECode [SExpr (EUnary "scopeName" (EStr "l"));
+            SExpr (EBinary "then" (EUnary "if" (EBinary ">" (EVar "_x") (ENum 1))) (ECode [SExpr (EBinary "breakOut" (EVar "_x") (EStr "l"))]));
+            SExpr (ENum 0)])
+    (EArr [ENum 1; ENum 2; ENum 3]).
+Example loop_own_name_inhabited : exists v s', zev init_state ex_loop_own_name v s' /\ v = RNum 2.
+Proof.
+  eexists _, _. split.
+  { eapply (ZLoopCA _ _ _ _ _ _ _ KForEach); [reflexivity|reflexivity| |eapply ZCode| |].
+    - eexists _, _. split; [reflexivity|]. left. eexists. reflexivity.
+    - eapply ZPure. eapply PArr. eapply PCons; [eapply PNum|]. eapply PCons; [eapply PNum|]. eapply PCons; [eapply PNum|eapply PNil].
+    - eapply ZIterCons.
+      + eapply ZBCons.
+        * eapply ZSExprV. eapply ZScopeName; [reflexivity|intros ? ?; discriminate|eapply ZPure; eapply PStr|reflexivity|reflexivity].
+        * eapply ZBCons.
+          -- eapply ZSExprV. eapply ZThenSkip; [reflexivity| |eapply ZCode].
+             eapply ZIf; [reflexivity|intros ? ?; discriminate|]. eapply ZPure. eapply PBin; [eapply PVarL; reflexivity|eapply PNum|reflexivity].
+          -- eapply ZBLast. eapply ZSExprV. eapply ZPure. eapply PNum.
+      + reflexivity.
+      + exact I.
+      + eapply ZIterBreak.
+        * eapply ZKCons.
+          -- eapply ZSExprV. eapply ZScopeName; [reflexivity|intros ? ?; discriminate|eapply ZPure; eapply PStr|reflexivity|reflexivity].
+          -- eapply ZKThen; [reflexivity| |eapply ZCode| |].
+             ++ eapply ZIf; [reflexivity|intros ? ?; discriminate|]. eapply ZPure. eapply PBin; [eapply PVarL; reflexivity|eapply PNum|reflexivity].
+             ++ eapply ZKBreakV; [reflexivity|eapply ZPure; eapply PVarL; reflexivity|split; discriminate|eapply ZPure; eapply PStr|discriminate].
+             ++ discriminate.
+        * reflexivity. }
+  reflexivity.
+Qed.
+Example loop_own_name_ref_and_vm_agree :
+  run_ref 200 [SExpr ex_loop_own_name] = "OK:V<2>" /\
+  run_final (load (create_rt [] 0 0 (100 * 100) 150) (compile_block [SExpr ex_loop_own_name])) = "-1:0:3:60095,M<VALUE 2>,".
+Proof. split; vm_compute; reflexivity. Qed.
 
 (* ---- switch - case - default (VM/SimSwitchOps.v; relation zswitch and the constructors ZSwitchVal / ZSwitchNone / ZSwitchRun of
    VM/SimExit.v).  The statements of a switch body - labels `case x;` (fall-through), `case x : {..}`, `default {..}`, the case values
